@@ -24,6 +24,7 @@ type c19Case struct {
 	Plain  []string // keys that are not
 	TLS    bool
 	Ops    []string // status | list | listid | cancel | release | restart
+	TTL    string   // ttl field of the submission ("" absent; "soon" does not parse: the submission is refused half-way)
 }
 
 func isSecretKey(k string) bool { return strings.HasPrefix(strings.ToLower(k), "secret_") }
@@ -84,6 +85,9 @@ func runC19Case(t *testing.T, c c19Case) CaseOut {
 			req[k] = v
 			plainVals[k] = v
 		}
+		if c.TTL != "" {
+			req["ttl"] = c.TTL
+		}
 		var transcript bytes.Buffer
 		listeners0 := len(e.n.VerifSnapshot().Listeners)
 		entries0 := dirEntries(e.dataDir())
@@ -105,6 +109,16 @@ func runC19Case(t *testing.T, c c19Case) CaseOut {
 			transcript.WriteString(r2 + "\n")
 		}
 		s.close()
+		badTTL := c.TTL == "soon"
+		if badTTL {
+			if !strings.HasPrefix(reply, "ERROR") {
+				out.violate("secret:bad-ttl-accepted", "submission with ttl %q was accepted: %q", c.TTL, trunc(reply, 100))
+			}
+			// whatever the refused submission left behind is queried like any other unit
+			if ids := e.w.ListKnownUnitIDs(); len(ids) > 0 && unitID == "" {
+				unitID = ids[0]
+			}
+		}
 		hasSecret := len(c.Secret) > 0
 		if hasSecret && !c.TLS {
 			if unitID != "" || !strings.HasPrefix(reply, "ERROR") {
@@ -118,7 +132,7 @@ func runC19Case(t *testing.T, c c19Case) CaseOut {
 			if n := len(e.n.VerifSnapshot().Listeners); n != listeners0 {
 				out.violate("secret:dial-after-refusal", "refused submission opened %d socket(s)", n-listeners0)
 			}
-		} else if unitID == "" {
+		} else if unitID == "" && !badTTL {
 			out.violate("secret:legitimate-submit-refused", "submission secret=%v plain=%v tls=%v refused: %q", c.Secret, c.Plain, c.TLS, trunc(reply, 100))
 		}
 		released := false
@@ -236,6 +250,18 @@ func runC19(w *W) {
 		c := c19Case{Plain: []string{key}, TLS: false, Ops: []string{"status", "list"}}
 		w.Case(fmt.Sprintf("nearmiss %s", key), func() CaseOut { return runC19Case(w.T, c) })
 	}
+	// (2b) submissions that are refused after the unit was stored (ttl that does not parse), and accepted ones with a ttl
+	for _, ttl := range []string{"soon", "10m"} {
+		for _, ss := range [][]string{{"secret_a"}, {"SECRET_B", "secret_"}} {
+			for _, ops := range [][]string{{"status", "list"}, {"list", "listid"}, {"restart", "status", "list"}, {"cancel", "status", "list"}, {"release", "list"}} {
+				c := c19Case{Secret: ss, Plain: []string{"plain"}, TLS: true, Ops: ops, TTL: ttl}
+				w.Case(fmt.Sprintf("ttl=%s secret=%v ops=%v", ttl, ss, ops), func() CaseOut { return runC19Case(w.T, c) })
+			}
+		}
+	}
+	// (2c) queries interleaved with the submission
+	w.explorerCase("submit || list p=2", 2, func(r *xrun) []Violation { return runC19Conc(1, r) })
+	w.explorerCase("submit || list || list p=1", 1, func(r *xrun) []Violation { return runC19Conc(2, r) })
 	// (3) parameter maps x operation sequences
 	secretSets := [][]string{nil, {"secret_a"}, {"SECRET_B", "secret_"}, {"secret_a", "Secret_c", "sEcReT_d"}}
 	plainSets := [][]string{nil, {"plain"}, {"secretx", "xsecret_"}}
@@ -268,7 +294,7 @@ func init() {
 		ID:        "C19",
 		Level:     "exploration",
 		Technique: "bounded-exhaustive enumeration of parameter maps x operation sequences through the real control service and Workceptor (remote submission), scanning every response byte for marker values",
-		Rule: "keys: all 64 letter-case spellings of secret_ (alone, with and without TLS profile), near misses (secret, secretx, xsecret_, ...), maps with 0..3 secret and 0..2 plain entries; then every sequence of <=2 (quick; every second longer one) / <=3 (thorough) operations from {status, list, list <id>, cancel, release, restart of the Workceptor on the same directory}, each followed by status+list. " +
+		Rule: "keys: all 64 letter-case spellings of secret_ (alone, with and without TLS profile), near misses (secret, secretx, xsecret_, ...), maps with 0..3 secret and 0..2 plain entries; submissions with a ttl that parses / does not parse (refused after the unit was stored) followed by 5 query sequences; a status / list query interleaved with a submission at every hook point (cooperative scheduler, <=2 preemptions); then every sequence of <=2 (quick; every second longer one) / <=3 (thorough) operations from {status, list, list <id>, cancel, release, restart of the Workceptor on the same directory}, each followed by status+list. " +
 			"Each case is a distinct (map, profile, sequence); non-trivial = at least one parameter. Oracle: no marker value of a secret key in any response; plain parameters reported unchanged while the unit exists; secret + no TLS profile => ERROR, data directory unchanged, no socket opened.",
 		Assumptions: []string{"the on-disk status file is not part of the API (it stores the parameters for the later remote submission)"},
 		Run:         runC19,
